@@ -1589,6 +1589,28 @@ func (p *pkgInfo) emitBuildResetFact(o *out) {
 		}
 	}
 	walk(fd.Body.List)
+	if !allReset {
+		// alternative shape: ONE reset at the top level of the body that every return comes after
+		// (`ranges, unsorted := p.ranges, p.unsorted; *p = PositionsBuilder{}; …`)
+		for i, st := range fd.Body.List {
+			if !isReset(st) {
+				continue
+			}
+			early := false
+			for _, before := range fd.Body.List[:i] {
+				ast.Inspect(before, func(n ast.Node) bool {
+					if _, ok := n.(*ast.ReturnStmt); ok {
+						early = true
+					}
+					return !early
+				})
+			}
+			if !early {
+				allReset = true
+			}
+			break
+		}
+	}
 	// the sorted-path result must be a FRESH slice: in Build or in a package-level helper it calls
 	// there is a `var result []T` without initialiser, a slice literal `[]T{…}` or a make([]T, …),
 	// and no variable is initialised from a slice EXPRESSION (x[a:b]: shares the backing array)
